@@ -9,7 +9,7 @@ Python source on every run.  This file models the control flow around it *as it 
 * every mutation happens in the order of the Python text, a call returns `(state after the call, exception?)`
   (`Res`), so that "an assignment that raises leaves the grid unchanged" is a theorem about this model and not
   an artefact of an `Except` monad;
-* `None` can be assigned to all three quantities (the setters accept it);
+* `None` can be assigned to all three quantities (the setters accept it), except to a locked, defined extent;
 * no positivity check exists in the code, none is modelled (`gpts = 0`, negative extents … are accepted);
 * `ZeroDivisionError` of `r / d` for a zero sampling in `_adjust_gpts` (Python floats) is modelled;
 * the lock test of the extent setter is `numpy.allclose(new, old)` (rtol 1e-5, atol 1e-8, with numpy
@@ -124,7 +124,9 @@ def setExtentCore (g : Grid) (ve : Option (List Rat)) : Res :=
 
 /-- `Grid.extent = v` -/
 def setExtent (g : Grid) (v : Val) : Res :=
-  if v = Val.none then ({ g with extent := none }, none)
+  if v = Val.none then
+    -- `None` may not be assigned to a locked, defined extent (RuntimeError)
+    if g.lockExtent && g.extent.isSome then (g, some "runtime_error") else ({ g with extent := none }, none)
   else
     match extentLockFails g v with
     | .error e => (g, some e)
@@ -231,5 +233,52 @@ def checkMatch (g o : Grid) : Except String Unit :=
     match g.gpts, o.gpts with
     | some a, some b => if a = b then .ok () else .error "runtime_error"
     | _, _ => .ok ()
+
+/-! ### `Grid.match` -/
+
+def valOfRats : Option (List Rat) → Val
+  | none => .none
+  | some l => .seq l
+
+def valOfInts : Option (List Int) → Val
+  | none => .none
+  | some l => .seq (l.map fun (n : Int) => (n : Rat))
+
+/-- both grids after the call, and the exception it raised (if any) -/
+abbrev Res2 := (Grid × Grid) × Option String
+
+def Res2.bind (r : Res2) (f : Grid → Grid → Res2) : Res2 :=
+  match r with
+  | ((s, o), none) => f s o
+  | (p, some e) => (p, some e)
+
+/-- extent phase of `match`: `other.extent = self.extent` if the other has none, else `self.extent = other.extent` when the
+float32 images differ (`c1`, computed by numpy: `np.any(np.array(self.extent, float32) != np.array(other.extent, float32))`) -/
+def matchExtent (s o : Grid) (c1 : Bool) : Res2 :=
+  if o.extent.isNone then let r := setExtent o (valOfRats s.extent); ((s, r.1), r.2)
+  else if c1 then let r := setExtent s (valOfRats o.extent); ((r.1, o), r.2)
+  else ((s, o), none)
+
+/-- gpts phase: exact comparison of the tuples -/
+def matchGpts (s o : Grid) : Res2 :=
+  if o.gpts.isNone then let r := setGpts o (valOfInts s.gpts); ((s, r.1), r.2)
+  else if s.gpts ≠ o.gpts then let r := setGpts s (valOfInts o.gpts); ((r.1, o), r.2)
+  else ((s, o), none)
+
+/-- sampling phase: `self.sampling = other.sampling` unless `np.allclose` of the float32 images (`c3`) -/
+def matchSampling (s o : Grid) (c3 : Bool) : Res2 :=
+  if o.sampling.isNone then let r := setSampling o (valOfRats s.sampling); ((s, r.1), r.2)
+  else if !c3 then let r := setSampling s (valOfRats o.sampling); ((r.1, o), r.2)
+  else ((s, o), none)
+
+/-- `self.match(other, check_match)`; the two float32 comparisons enter as the inputs `c1`, `c3` -/
+def matchGrids (s o : Grid) (check : Bool) (c1 c3 : Bool) : Res2 :=
+  let pre : Res2 :=
+    if check then
+      match checkMatch s o with
+      | .ok _ => ((s, o), none)
+      | .error e => ((s, o), some e)
+    else ((s, o), none)
+  ((pre.bind fun s o => matchExtent s o c1).bind fun s o => matchGpts s o).bind fun s o => matchSampling s o c3
 
 end AbtemVerif.Grid
